@@ -192,7 +192,7 @@ func isLoad0(in ssa.Instruction) (*ssa.UnOp, bool) {
 }
 
 func fixedBufferCleaner(c *Ctx) {
-	q := c.F("FixedBufferCleaner$1")
+	q := c.F("FixedBufferCleaner$ret1")
 	if !q.ok() {
 		return
 	}
@@ -428,7 +428,7 @@ func init() {
 		Floors: []Floor{
 			floorRule("MINFOLD", "MINFOLD", 3),
 			floorKey("DefaultCleaner conditions", 4, "COND/DefaultCleaner/"),
-			floorKey("FixedBufferCleaner", 4, "/FixedBufferCleaner$1/"),
+			floorKey("FixedBufferCleaner", 4, "/FixedBufferCleaner$ret1/"),
 			floorKey("cleanupLogic guards", 3, "COND/(*Buffer).cleanupLogic/"),
 			floorKey("consumerOffsets", 2, "/(*Buffer).consumerOffsets/"),
 			floorKey("get guards", 2, "COND/(*Buffer).get/"),
